@@ -53,6 +53,38 @@ def run(args):
         results = {}
         for prop, tag, fut in jobs:
             results.setdefault(prop, []).append((tag, fut.result()))
+    if getattr(args, "batch_runs", 0):
+        # whole batches under different worker counts: the per-run digests
+        # must not depend on how runs are spread over processes
+        import tempfile
+        for prop in props:
+            outs = []
+            for nw in (3, 16):
+                fd, path = tempfile.mkstemp(prefix="dsim-dg-")
+                os.close(fd)
+                env = dict(os.environ)
+                env.pop("DSIM_REEXEC", None)
+                env["VERIF_DUMP_DIGESTS"] = path
+                env["VERIF_EVIDENCE_DIR"] = tempfile.mkdtemp(prefix="dsim-ev-")
+                subprocess.run([sys.executable,
+                                os.path.join(cli.VERIF, "bin", "check.py"),
+                                "check", prop, "--runs",
+                                str(args.batch_runs), "--workers", str(nw)],
+                               env=env, capture_output=True, text=True,
+                               timeout=3600)
+                outs.append(open(path).read())
+                os.unlink(path)
+                import shutil
+                shutil.rmtree(env["VERIF_EVIDENCE_DIR"], ignore_errors=True)
+            same = outs[0] == outs[1] and outs[0] != ""
+            if not same:
+                bad += 1
+                print("HARNESS-ERROR selftest property=%s batch digests "
+                      "differ between 3 and 16 workers" % prop)
+            print("selftest property=%s batch of %d runs/class at 3 vs 16 "
+                  "workers: identical=%s (%d runs)" % (
+                      prop, args.batch_runs, same,
+                      len(outs[0].splitlines())))
     for prop in props:
         ref_tag, ref = results[prop][0]
         for tag, got in results[prop][1:]:
